@@ -810,7 +810,9 @@ func genC19(g *Gen) {
 	progs := []struct{ what, text string }{
 		{"calc", "a + b"}, {"calc", "a + b * c - d"}, {"calc", "Min(a, b) + c"}, {"calc", "arr[b - b] + Sum(c, d, a)"}, {"calc", "a IN arr AND s = 's1'"},
 		{"calc", "c ^ 2 + a"}, {"calc", "arr[3] ^ 2 - f ^ b"}, {"calc", "-c + Abs(c) + Round(f)"}, {"calc", "NOT t OR n IS NULL"}, {"calc", "s + a + c"},
-		{"calc", "If(n IS NULL, c, a) * c"}, {"calc", "Abs(d) + d + Abs(-f)"}, {"calc", "Min(d, a) - Max(d, c)"}, {"calc", "Max(c, f) / c"}, {"calc", "a % b + (a << 1) - d"},
+		{"calc", "If(n IS NULL, c, a) * c"}, {"calc", "Ceil(c) + c"}, {"calc", "Floor(c) * 2 + c"}, {"calc", "Round(c) - c + Trunc(c)"}, {"calc", "Sqrt(c) + Exp(c) + c"},
+		{"calc", "Ln(c) + Log10(c) + Log(c) + c"}, {"calc", "Sin(c) + Cos(c) + Tan(c) + c"}, {"calc", "Atan(c) + Asin(c / 10) + Acos(c / 10) + c"}, {"calc", "Abs(c) + Ceiling(c) + Truncate(c) + c"},
+		{"calc", "Min(c, c) + Max(c, c) + Sum(c, c) + c"}, {"calc", "Empty(c) OR Contains(s, s) OR t"}, {"calc", "Abs(d) + d + Abs(-f)"}, {"calc", "Min(d, a) - Max(d, c)"}, {"calc", "Max(c, f) / c"}, {"calc", "a % b + (a << 1) - d"},
 		{"calc", "Sum('a', 'b', 'c', 'd', 'e', 'f', 'g', 'h', 'i', 'j')"}, {"calc", "Sum(s, 'b', s, 'c', s, 'd', s, 'e', s, 'f') + s"}, {"calc", "Sum(1, 2, 3, 4, 5, 6, 7, 8, 9, 10, a) + Max(a, 1, 2, 3, 4, 5, 6, 7, 8, 9)"},
 		{"calc", "big + (1 << big)"}, {"calc", "(a >> 70) + 70 + (1 << 65)"}, {"calc", "(a << lbig) + lbig"}, {"calc", "Concat(s, 'x', s) + s"}, {"calc", "arr[0] + Array(a, b, s)[2] + Sum(arr[0], arr[1])"},
 		{"calc", "(n IN arrn) OR (b IN arrn) OR arrn[2] = b"}, {"calc", "(a NOT IN arrn) AND arrn[1] IS NULL AND arrn[4] = 'x'"}, {"calc", "If(s IN arrn, arrn[0], arrn[2]) + a"},
